@@ -13,6 +13,23 @@ def run(ctx):
                    expect_violations=("RowsExact", "MidRunRows", "AllSamplesKept"), coverage=False)
     if not r.inv_violations:
         ctx.note("model self-test failed: pinned counter did not violate RowsExact")
+    # (a') unbounded: Apalache proves an inductive invariant of the counter abstraction MLMCCount.tla (any number of passes,
+    # any sample sizes, LMax = 3): RowsExact, NoCrash, NoPaddingAtReturn; with the pinned counter the step is not inductive
+    if True:
+        from .. import apalache as A
+        for init, inv, length, what in (("Init", "IndInv", 0, "Init => IndInv"), ("IndInv", "IndInv", 1, "IndInv /\\ Next => IndInv'"),
+                                        ("IndInv", "Safety", 0, "IndInv => RowsExact /\\ NoCrash /\\ NoPaddingAtReturn")):
+            ok, wall, tail = A.check("MC_MLMCCount", init, inv, length, f"count_{init}_{inv}")
+            ctx.runs.append({"label": f"apalache MC_MLMCCount: {what}", "kind": "inductive-invariant", "wall_s": round(wall, 1), "holds": ok})
+            if not ok:
+                ctx._report("design", inv, "design:MC_MLMCCount:apalache", None, None,
+                            {"property": ctx.pid, "kind": "design", "module": "MC_MLMCCount", "cfg": f"--init={init} --inv={inv} --length={length}",
+                             "invariant": inv, "tlc_tail": tail})
+        ok, wall, tail = A.check("MC_MLMCCountPinned", "IndInv", "IndInv", 1, "count_pinned")
+        ctx.runs.append({"label": "apalache MC_MLMCCountPinned (new-level counter 1): step must NOT be inductive", "kind": "inductive-invariant",
+                         "wall_s": round(wall, 1), "holds": ok})
+        if ok:
+            ctx.note("model self-test failed: pinned counter is inductive in MLMCCount")
     # (b) spec -> code: TLC behaviours replayed into the real engine; (c) code -> spec: recorded runs validated
     scripts = M.export_scripts(ctx, 400 if quick else 4000, ctx.seed)
     both = []
